@@ -1,8 +1,9 @@
 #!/bin/sh
 # try_mutant.sh <patch.diff> <prop> [tier]  : runs a check against a scratch copy of /repo with the patch applied
+V=$(cd "$(dirname "$0")/.." && pwd)
 P=$1; PROP=$2; TIER=${3:-quick}
 D=$(mktemp -d /tmp/mut.XXXXXX)
 git -C /repo archive HEAD | tar -x -C $D
 if ! (cd $D && patch -p1 -s < $P); then echo "PATCH FAILED"; rm -rf $D; exit 3; fi
-cd /verif && SBDF_REPO=$D ./check $PROP $TIER 2>&1 | grep -v conda | grep -E "VIOLATION|KNOWN|quick:|thorough:|note:" | head -5
+cd $V && SBDF_REPO=$D ./check $PROP $TIER 2>&1 | grep -v conda | grep -E "VIOLATION|KNOWN|quick:|thorough:|note:" | head -5
 rm -rf $D
